@@ -15,7 +15,8 @@ NODE = 2
 class RefBlockServer:
     """CiA 301 block download / upload server (one object)."""
 
-    def __init__(self, value, blks, crc_supported=True, size_ind=True):
+    def __init__(self, value, blks, crc_supported=True, size_ind=True, size_check=True):
+        self.size_check = size_check
         self.value = bytes(value)
         self.blks = list(blks) or [127]
         self.bi = 0
@@ -76,7 +77,7 @@ class RefBlockServer:
         n = (q[0] >> 2) & 7
         ok = self.ph == "dlend" and len(self.acc) >= 7 and n <= 6
         v = self.acc[:len(self.acc) - n] if ok else b""
-        if ok and self.size is not None and len(v) != self.size:
+        if ok and self.size_check and self.size is not None and len(v) != self.size:
             ok = False
         if ok and self.crc_on and struct.unpack_from("<H", q, 1)[0] != binascii.crc_hqx(v, 0):
             ok = False
@@ -150,7 +151,7 @@ def run_case(case: dict) -> dict:
     ev = []
     value = bytes(case.get("value", []))
     srv = RefBlockServer(value, case.get("blks", [127]), case.get("srvcrc", True),
-                         case.get("size_ind", True))
+                         case.get("size_ind", True), case.get("size_check", True))
     net = canopen.Network()
     cnt = {"seg": 0, "ack": 0, "sseg": 0}
     lose_seg, lose_ack = set(case.get("lose_seg", [])), set(case.get("lose_ack", []))
@@ -315,7 +316,8 @@ def run_case(case: dict) -> dict:
             deliver(STALE)
       if case["op"] == "bdl":
           ev.append({"e": "call", "op": "bdl", "idx": idx, "sub": sub, "data": B(data),
-                     "size": case.get("size", len(data)), "crc": bool(case.get("crc", True))})
+                     "size": case.get("size", len(data)), "crc": bool(case.get("crc", True)),
+                     "sizecheck": bool(case.get("size_check", True))})
           try:
               size = case.get("size", len(data))
               fp = sdo.open(idx, sub, "wb", buffering=case.get("buffering", 1024),
